@@ -25,7 +25,7 @@ def main():
         json.dump(jsonable(res), open(a.out, 'w'), indent=1)
         return 0
     payload = json.load(open(a.target))
-    mod = importlib.import_module('rac.%s' % payload['property'])
+    mod = importlib.import_module(payload.get('replay_module') or 'rac.%s' % payload['property'])
     try:
         v = mod.replay(payload.get('call') or {})
     except Exception:
